@@ -136,6 +136,13 @@ def r3_who_may_refresh(cx):
         t1 = forward_taint(b, seed_locals=now_calls, mut_args=False)
         t2 = forward_taint(b, seed_place_pred=lambda p: place_is_field(root_place(b, p), "Config", "peer_timeout"), mut_args=False)
         cx.check("expiry=now+peer-timeout", l in t1 and l in t2, site_of(b, span=s["span"]), "the refreshed expiry is now + the configured peer timeout")
+        # ... the *own* timeout: what the peer advertises bounds the peer's patience with us, not ours with it
+        t3 = forward_taint(b, seed_place_pred=lambda p: place_is_field(root_place(b, p), "PeerData", "peer_timeout") or place_is_field(root_place(b, p), "NodeInfo", "peer_timeout"), mut_args=False)
+        cx.check("expiry-uses-own-timeout-only", l is not None and l not in t3, site_of(b, span=s["span"]),
+                 "the expiry of a peer does not depend on the timeout that peer advertises (last refresh + own peer timeout)")
+    wadv = field_writes(prog, "PeerData", "peer_timeout")
+    cx.check("advertised-timeout-immutable", not wadv, site_of(wadv[0][0], wadv[0][1]) if wadv else None,
+             "PeerData.peer_timeout is set when the peer is added and never rewritten (found %d store(s))" % len(wadv))
 
 
 def r4_expiry_each_tick(cx):
